@@ -60,6 +60,12 @@ def configs(tier, seed):
                             extra["wvals"] = [["1/2", "3", "1"], ["3", "3", "1/2"], ["1", "0", "2"]][i % 3][:n_]
                         out.append(C03._base(n_, dims, 2, [0] * len(dims), "sum", weights=wf, ignore=ignore, fmt=fmt, K=K,
                                              fact=fact, stat=stat, force2d=(K == 1 and stat == "stddev" and i % 4 == 0), **extra))
+    # quantile of a several-column fact (each column has its own missing rows)
+    for ignore in (False, True):
+        for wf in (("none",) if tier == "quick" else ("none", "array")):
+            i += 1
+            out.append(C03._base(N if wf == "none" else 2, [[]], 2, [0], "sum", weights=wf, ignore=ignore, fmt=["nan", "pair"][i % 2], K=2,
+                                 fact="nan", stat="quantile"))
     # minimum / maximum of datetime64 facts (NaT-marked or with a validity array), both report formats
     for stat in ("max", "min"):
         for ignore in (False, True):
